@@ -34,6 +34,9 @@ type Node struct {
 	// Stillborn: a leaf spawned with MaxRestarts 0 that panics in its Started handler, so it is
 	// already gone when SpawnChild returns
 	Stillborn bool `json:"stillborn,omitempty"`
+	// CrashOnce: after the tree is built the node panics on one message and is restarted (default restart
+	// budget, no delay).  It is still the same child of the same parent: Parent() and Children() as before.
+	CrashOnce bool `json:"crash_once,omitempty"`
 	// DupSpawn: after the tree is built the parent spawns a child under this node's kind and id a
 	// second time.  Nothing may change: the producer must not run, the live child stays listed.
 	DupSpawn bool `json:"dup_spawn,omitempty"`
@@ -73,16 +76,17 @@ type userMsg struct{ N int }
 type crashMsg struct{}
 
 type nodeState struct {
-	idx       int
-	pid       *actor.PID
-	parentPID *actor.PID // what Context.Parent() said
-	parentSet bool
-	stamp     int64 // global sequence number of Stopped, 0 = not stopped
-	stops     int
-	regLeft   []string // descendants still registered when this node handled Stopped
-	stoppedCh chan struct{}
-	handled   int
-	spawned   bool
+	idx        int
+	pid        *actor.PID
+	parentPID  *actor.PID // what Context.Parent() said
+	parentSet  bool
+	stamp      int64 // global sequence number of Stopped, 0 = not stopped
+	stops      int
+	regLeft    []string // descendants still registered when this node handled Stopped
+	stoppedCh  chan struct{}
+	handled    int
+	spawned    bool
+	crashStops int // Stopped deliveries that belong to a restart, announced by the harness
 }
 
 type harness struct {
@@ -111,6 +115,14 @@ func (h *harness) receive(i int, c *actor.Context) {
 	n := h.nodes[i]
 	switch m := c.Message().(type) {
 	case actor.Stopped:
+		h.mu.Lock()
+		if n.crashStops > 0 {
+			// the Stopped that a crashed incarnation is told before it is replaced: not the end of the node
+			n.crashStops--
+			h.mu.Unlock()
+			return
+		}
+		h.mu.Unlock()
 		var left []string
 		for _, d := range h.descendants(i) {
 			if p := c.GetPID(h.idOf(d)); p != nil {
@@ -237,7 +249,7 @@ func run(c TCase) (map[string]int, error) {
 			maxDepth = max(maxDepth, depth[i])
 		}
 	}
-	opts := []actor.OptFunc{actor.WithID("0")}
+	opts := []actor.OptFunc{actor.WithID("0"), actor.WithRestartDelay(0)}
 	if c.Nodes[0].CtxCancelled {
 		opts = append(opts, actor.WithContext(cancelledCtx()))
 		feat["spawned-with-a-cancelled-context"]++
@@ -310,6 +322,41 @@ func run(c TCase) (map[string]int, error) {
 	}
 	if err := checkChildren("after the tree was built"); err != nil {
 		return nil, err
+	}
+	// ---- nodes that crash once and are restarted keep their place in the tree
+	checkParents := func(what string) error {
+		h.mu.Lock()
+		defer h.mu.Unlock()
+		for i, nd := range h.nodes {
+			if i == 0 || !alive[i] {
+				continue
+			}
+			want := h.nodes[c.Nodes[i].Parent].pid
+			if nd.parentPID == nil || !nd.parentPID.Equals(want) {
+				return fmt.Errorf("%s: Parent() of %s is %v, want the spawning actor %v", what, h.idOf(i), nd.parentPID, want)
+			}
+		}
+		return nil
+	}
+	for i, nd := range c.Nodes {
+		if !nd.CrashOnce || !alive[i] || i == crashNode || nd.Stillborn {
+			continue
+		}
+		h.mu.Lock()
+		h.nodes[i].crashStops++
+		h.mu.Unlock()
+		e.Send(h.nodes[i].pid, crashMsg{})
+		// the query is handled by the fresh incarnation, after its Started
+		if _, err := h.children(i); err != nil {
+			return nil, err
+		}
+		feat["node-restarted-after-a-crash"]++
+		if err := checkParents(fmt.Sprintf("after %s crashed and was restarted", h.idOf(i))); err != nil {
+			return nil, err
+		}
+		if err := checkChildren(fmt.Sprintf("after %s crashed and was restarted", h.idOf(i))); err != nil {
+			return nil, err
+		}
 	}
 	// ---- duplicate SpawnChild over live children: changes nothing
 	for i, nd := range c.Nodes {
@@ -572,7 +619,7 @@ func (h *harness) receiveWith(i int, c *actor.Context, crashNode int) {
 		if first {
 			for _, k := range h.kids[i] {
 				k := k
-				opts := []actor.OptFunc{actor.WithID(fmt.Sprint(k))}
+				opts := []actor.OptFunc{actor.WithID(fmt.Sprint(k)), actor.WithRestartDelay(0)}
 				if k == crashNode || h.c.Nodes[k].Stillborn {
 					opts = append(opts, actor.WithMaxRestarts(0))
 				}
@@ -622,6 +669,7 @@ func gen(t *rapid.T) TCase {
 		}
 		c.Nodes[i].CtxCancelled = rapid.IntRange(0, 3).Draw(t, "ctx") == 0
 		c.Nodes[i].DupSpawn = i > 0 && rapid.IntRange(0, 5).Draw(t, "dup") == 0
+		c.Nodes[i].CrashOnce = rapid.IntRange(0, 4).Draw(t, "crashonce") == 0
 		c.Nodes[i].SlowStop = rapid.SampledFrom([]int{0, 0, 0, 1, 10, 200}).Draw(t, "slow")
 		if rapid.IntRange(0, 2).Draw(t, "busy") == 0 {
 			c.Nodes[i].Busy = true
